@@ -1,3 +1,199 @@
-(* Handlers for board scripts; extended below. *)
-let handle (line : string) (_kind : string) (_args : string list) (_obs : string) : unit =
-  failwith ("unknown case kind: " ^ line)
+(* Board scripts: sequences of NewBoard / PushMove / PopMove / Fork / Adjudicate operations on game
+   boards sharing history, with every getter observed after every operation (C05, C07, C08). *)
+open Model
+open Common
+open Conv
+
+(* --- shared with dispatch.ml (duplicated here to keep the dependency order simple) --- *)
+let split_on c s = String.split_on_char c s
+let parse_pos (tok : string) : position =
+  match List.map n_of_hex (split_on ',' tok) with
+  | l when List.length l = 20 ->
+    let rec take k l = if k = 0 then ([], l) else match l with x :: r -> let (a, b) = take (k - 1) r in (x :: a, b) | [] -> failwith "short" in
+    let (pcs, rest) = take 14 l in
+    (match rest with
+     | [a; b; c; d; cas; ep] -> { pieces = pcs; rotated_bb = { r0 = a; r90 = b; r45L = c; r45R = d }; castling = cas; enpassant = ep }
+     | _ -> failwith "bad pos")
+  | _ -> failwith ("bad position token: " ^ tok)
+let norm_hex s = let s = String.lowercase_ascii s in
+  let n = String.length s in
+  let i = ref 0 in
+  while !i < n - 1 && s.[!i] = '0' do incr i done;
+  String.sub s !i (n - !i)
+let pos_str (p : position) : string =
+  String.concat "," (List.map (fun x -> norm_hex (hex_of_n x)) (p.pieces @ [p.rotated_bb.r0; p.rotated_bb.r90; p.rotated_bb.r45L; p.rotated_bb.r45R; p.castling; p.enpassant]))
+let parse_move (tok : string) : move =
+  match List.map (fun x -> n_of_int (int_of_string x)) (split_on ',' tok) with
+  | [t; f; to_; pc; pr; cap] -> { mtype = t; mfrom = f; mto = to_; mpiece = pc; mpromo = pr; mcapture = cap }
+  | _ -> failwith ("bad move token: " ^ tok)
+let move_str (m : move) : string =
+  Printf.sprintf "%d,%d,%d,%d,%d,%d" (int_of_n m.mtype) (int_of_n m.mfrom) (int_of_n m.mto) (int_of_n m.mpiece) (int_of_n m.mpromo) (int_of_n m.mcapture)
+
+(* --- zobrist keys --- *)
+let zkeys : (string, ztable) Hashtbl.t = Hashtbl.create 4
+
+let handle_zkeys args =
+  match args with
+  | [seed; keys] ->
+    let arr = Array.of_list (List.map n_of_hex (split_on ',' keys)) in
+    if Array.length arr <> 2 * 7 * 64 + 16 + 64 + 2 then failwith "bad zkeys length";
+    let zt = {
+      z_piece = (fun c p s -> let i = (int_of_n c * 7 + int_of_n p) * 64 + int_of_n s in if i < 896 && int_of_n c < 2 && int_of_n p < 7 && int_of_n s < 64 then arr.(i) else N0);
+      z_castling = (fun c -> let i = int_of_n c in if i < 16 then arr.(896 + i) else N0);
+      z_enpassant = (fun s -> let i = int_of_n s in if i < 64 then arr.(912 + i) else N0);
+      z_turn = (fun t -> let i = int_of_n t in if i < 2 then arr.(976 + i) else N0) } in
+    Hashtbl.replace zkeys seed zt
+  | _ -> failwith "bad zkeys line"
+
+let reason_code = function
+  | NoReason -> 0 | Checkmate -> 1 | Stalemate -> 2 | Repetition3 -> 3 | Repetition5 -> 4
+  | NoProgress -> 5 | InsufficientMaterial -> 6 | OtherReason -> 7
+
+let b01 b = if b then "1" else "0"
+let omove_str = function Some m -> move_str m | None -> "-"
+
+(* observation of a model board; the scratch hash and the repetition count are appended by the caller *)
+let obs_of (zt : ztable) (h : heap) (b : board) (ok : bool) : string list =
+  let p = b_position h b in
+  [ b01 ok; pos_str p; string_of_int (int_of_n b.b_turn); norm_hex (hex_of_n (b_hash h b));
+    string_of_int (int_of_n (b_noprogress h b)); string_of_int (int_of_z b.b_ply); string_of_int (int_of_z b.b_moves);
+    b01 b.b_castled_w; b01 b.b_castled_b; string_of_int (int_of_n b.b_result.outcome); string_of_int (reason_code b.b_result.rreason);
+    omove_str (last_move h b); omove_str (second_to_last_move h b);
+    norm_hex (hex_of_n (has_moved h b (z_of_int 3))); norm_hex (hex_of_n (has_moved h b (z_of_int 1000)));
+    norm_hex (hex_of_n (zhash zt p b.b_turn)); string_of_int (int_of_z (rep_get b.b_reps (b_hash h b))) ]
+
+(* fields compared between "before push" and "after pop" (C08): everything but ok, outcome, reason *)
+let c08_fields (o : string list) : string list =
+  List.filteri (fun i _ -> i <> 0 && i <> 9 && i <> 10) o
+
+type sboard = {
+  mutable g : gstate option;           (* specification game state (None when the start is not a legal position) *)
+  mutable gstack : gstate list;
+  mutable ostack : string list list;   (* implementation observations before each successful push *)
+  mutable last_obs : string list;
+}
+
+let draw_code = function DrawRep3 -> 3 | DrawRep5 -> 4 | DrawNoProgress -> 5 | DrawInsufficient -> 6
+
+let handle_bscript line args obs =
+  (* args: zseed P turn np fm :: ops... *)
+  match args with
+  | zseed :: ptok :: turn :: np :: fm :: "::" :: ops ->
+    let zt = (try Hashtbl.find zkeys zseed with Not_found -> failwith "zkeys line missing") in
+    let p0 = parse_pos ptok in
+    let t0 = n_of_int (int_of_string turn) in
+    let obs_list = List.map (fun s -> List.filter (fun w -> w <> "") (split_on ' ' s)) (split_on '|' obs) in
+    let obs_arr = Array.of_list obs_list in
+    if Array.length obs_arr <> List.length ops + 1 then failwith ("bscript: obs count mismatch: " ^ short line);
+    let legal_start = wf_b p0 t0 in
+    bump (if legal_start then "bscript/legal-start" else "bscript/other-start");
+    (* model state *)
+    let (h0, b0) = new_board zt [] p0 t0 (n_of_int (int_of_string np)) (z_of_int (int_of_string fm)) in
+    let heap = ref h0 in
+    let boards = ref [| b0 |] in
+    let sel = ref 0 in
+    let g0 = if legal_start then Some (g_start (abs_pos p0) (color_of t0) (z_of_int (int_of_string np)) (z_of_int (int_of_string fm))) else None in
+    let sboards = ref [| { g = g0; gstack = []; ostack = []; last_obs = obs_arr.(0) } |] in
+    let bad_model = ref false in
+    let check_model i (m : string list) =
+      let o = obs_arr.(i) in
+      let o' = List.mapi (fun j x -> if j = 1 then String.concat "," (List.map norm_hex (split_on ',' x)) else if j = 3 || j = 13 || j = 14 || j = 15 then norm_hex x else x) o in
+      if m <> o' && not !bad_model then begin
+        bad_model := true;
+        report_mismatch line (Printf.sprintf "op#%d: %s" i (String.concat " " m))
+      end in
+    check_model 0 (obs_of zt !heap b0 true);
+    (* C07 on the implementation: incremental hash = scratch hash *)
+    let check_hash i =
+      let o = obs_arr.(i) in
+      if norm_hex (List.nth o 3) <> norm_hex (List.nth o 15) then
+        report_spec ~key:"prop=C07" line (Printf.sprintf "op#%d: board hash %s differs from the hash computed from scratch %s" i (List.nth o 3) (List.nth o 15)) in
+    check_hash 0;
+    List.iteri (fun k op ->
+        let i = k + 1 in
+        let o = obs_arr.(i) in
+        let sb = !sboards.(!sel) in
+        let b = !boards.(!sel) in
+        (match split_on ':' op with
+         | ["push"; mtok] ->
+           let m = parse_move mtok in
+           let ((h1, b1), ok) = push_move zt !heap b m in
+           heap := h1; !boards.(!sel) <- b1;
+           check_model i (obs_of zt !heap b1 ok);
+           bump "op/push";
+           let impl_ok = (List.hd o = "1") in
+           if impl_ok then begin
+             check_hash i;
+             (* C05 *)
+             (match sb.g with
+              | Some g ->
+                let g' = g_play g (abs_move m) in
+                sb.gstack <- g :: sb.gstack; sb.g <- Some g';
+                let drawn = (List.nth o 9 = "4") in
+                let reason = int_of_string (List.nth o 10) in
+                (match g'.g_now with
+                 | [] -> if drawn && not g'.g_drawn then report_spec ~key:"prop=C05" line (Printf.sprintf "op#%d: reported drawn (reason %d) but no draw condition has occurred in this game" i reason)
+                 | l ->
+                   List.iter (fun r -> bump (Printf.sprintf "draw/%d" (draw_code r))) l;
+                   if not drawn then report_spec ~key:"prop=C05" line (Printf.sprintf "op#%d: draw condition %s holds but the game is not reported drawn" i (String.concat "+" (List.map (fun r -> string_of_int (draw_code r)) l)))
+                   else (match l with
+                       | [r] -> if reason <> draw_code r then report_spec ~key:"prop=C05" line (Printf.sprintf "op#%d: draw reason %d, expected %d" i reason (draw_code r))
+                       | _ -> ()))
+              | None -> ());
+             sb.ostack <- sb.last_obs :: sb.ostack
+           end
+         | ["pop"] ->
+           let (((h1, b1), _), ok) = pop_move !heap b in
+           heap := h1; !boards.(!sel) <- b1;
+           check_model i (obs_of zt !heap b1 ok);
+           bump "op/pop";
+           if List.hd o = "1" then begin
+             check_hash i;
+             (match sb.gstack with g :: r -> sb.g <- Some g; sb.gstack <- r | [] -> sb.g <- None);
+             (match sb.ostack with
+              | before :: r ->
+                sb.ostack <- r;
+                if c08_fields before <> c08_fields o then report_spec ~key:"prop=C08" line (Printf.sprintf "op#%d: take-back did not restore the board: before push [%s] after pop [%s]" i (String.concat " " before) (String.concat " " o))
+                else if List.nth o 9 = "4" then report_spec ~key:"prop=C08" line (Printf.sprintf "op#%d: drawn result after take-back" i)
+              | [] -> ())
+           end
+         | ["fork"] ->
+           let (h1, f) = fork !heap b in
+           heap := h1;
+           boards := Array.append !boards [| f |];
+           sboards := Array.append !sboards [| { g = sb.g; gstack = []; ostack = []; last_obs = o } |];
+           sel := Array.length !boards - 1;
+           check_model i (obs_of zt !heap f true);
+           bump "op/fork";
+           (* a fork reports what its parent reports *)
+           if List.tl sb.last_obs <> List.tl o then report_spec ~key:"prop=C08" line (Printf.sprintf "op#%d: fork differs from its parent" i)
+         | ["sel"; ks] ->
+           sel := int_of_string ks;
+           let b' = !boards.(!sel) in
+           check_model i (obs_of zt !heap b' true);
+           bump "op/select";
+           (* isolation: the selected board reports what it reported when last used *)
+           let sb' = !sboards.(!sel) in
+           if List.tl sb'.last_obs <> List.tl o then
+             report_spec ~key:"prop=C08" line (Printf.sprintf "op#%d: board %d changed while another board was used: was [%s] now [%s]" i !sel (String.concat " " sb'.last_obs) (String.concat " " o))
+         | ["adj"] ->
+           let (b1, _) = adjudicate_no_legal_moves !heap b in
+           !boards.(!sel) <- b1;
+           check_model i (obs_of zt !heap b1 true);
+           bump "op/adjudicate";
+           (match sb.g with
+            | Some g ->
+              let exp_outcome, exp_reason =
+                if in_check g.g_pos.brd g.g_turn then ((match g.g_turn with Wh -> 3 | Bl -> 2), 1) else (4, 2) in
+              if int_of_string (List.nth o 9) <> exp_outcome || int_of_string (List.nth o 10) <> exp_reason then
+                report_spec ~key:"prop=C05" line (Printf.sprintf "op#%d: adjudication %s/%s, expected %d/%d" i (List.nth o 9) (List.nth o 10) exp_outcome exp_reason)
+            | None -> ())
+         | _ -> failwith ("bad op " ^ op));
+        !sboards.(!sel).last_obs <- o) ops
+  | _ -> failwith ("bad bscript line: " ^ short line)
+
+let handle (line : string) (kind : string) (args : string list) (obs : string) : unit =
+  match kind with
+  | "zkeys" -> handle_zkeys (args @ [obs])
+  | "bscript" -> handle_bscript line args obs
+  | _ -> Dispatch3.handle line kind args obs
